@@ -6,6 +6,8 @@
 (* estimate *is* the sequence of operations applied to the initial         *)
 (* estimate,  <<"P", dt>>  (prediction step of signed length dt) and       *)
 (* <<"S", key, id>>  (sensor update with reading `id` of sensor `key`).    *)
+(* A prediction step also carries the control it was given: <<"P", dt, c>> *)
+(* with c = number of the tick whose control was used (0: no control).     *)
 (* Any concrete filter is a homomorphic image of this, so "same call       *)
 (* sequence" implies "same result for every filter", and the order, count, *)
 (* size and sign of every step is visible.                                 *)
@@ -25,15 +27,17 @@ CONSTANTS
 
 VARIABLES
   max,         \* configured maximum step of this filter
+  t0,          \* time of the initial estimate
   hasControl,  \* does the wrapped filter declare control inputs
   held,        \* [t |-> held time, hist |-> held estimate (call sequence)]
   ghost,       \* the same run with every reading-less tick dropped (theorem C11b)
   nr,          \* readings consumed so far (gives every reading a unique id)
+  pend,        \* readings collected for the next tick (the caller builds the list, one at a time)
   log,         \* history of ticks: args + returned estimate + held state (observation only)
   last,        \* arguments/result of the last call (observation only)
   done
 
-vars == <<max, hasControl, held, ghost, nr, log, last, done>>
+vars == <<max, t0, hasControl, held, ghost, nr, pend, log, last, done>>
 
 AbsI(x) == IF x < 0 THEN -x ELSE x
 Sgn(x)  == IF x < 0 THEN -1 ELSE IF x > 0 THEN 1 ELSE 0
@@ -42,11 +46,12 @@ Sgn(x)  == IF x < 0 THEN -1 ELSE IF x > 0 THEN 1 ELSE 0
 (* The exact plan for moving from `from` to `to` with maximum step m:      *)
 (* floor(|d|/m) full steps of sign(d)*m, then the remainder if non-zero.   *)
 (***************************************************************************)
-Plan(from, to, m) ==
+PlanC(from, to, m, c) ==
   LET d == to - from
       n == AbsI(d) \div m
       r == d - Sgn(d) * n * m
-  IN [i \in 1..n |-> <<"P", Sgn(d) * m>>] \o (IF r # 0 THEN << <<"P", r>> >> ELSE <<>>)
+  IN [i \in 1..n |-> <<"P", Sgn(d) * m, c>>] \o (IF r # 0 THEN << <<"P", r, c>> >> ELSE <<>>)
+Plan(from, to, m) == PlanC(from, to, m, 0)
 
 RECURSIVE SumSteps(_)
 SumSteps(s) == IF s = <<>> THEN 0 ELSE Head(s)[2] + SumSteps(Tail(s))
@@ -66,61 +71,70 @@ ASSUME PlanTheorem == \A f \in Times : \A t \in Times : \A m \in MaxDts : PlanOK
 (* Readings are folded IN THE ORDER GIVEN: propagate the held estimate to  *)
 (* the reading's timestamp, apply the update, hold the result there.       *)
 (***************************************************************************)
-RECURSIVE Fold(_, _, _)
-Fold(h, rs, m) ==
+RECURSIVE Fold(_, _, _, _)
+Fold(h, rs, m, c) ==
   IF rs = <<>> THEN h
   ELSE LET r == Head(rs) IN
-       Fold([t |-> r.t, hist |-> h.hist \o Plan(h.t, r.t, m) \o << <<"S", r.key, r.id>> >>],
-            Tail(rs), m)
+       Fold([t |-> r.t, hist |-> h.hist \o PlanC(h.t, r.t, m, c) \o << <<"S", r.key, r.id>> >>],
+            Tail(rs), m, c)
 
-Report(h, out, m) == h.hist \o Plan(h.t, out, m)
+Report(h, out, m, c) == h.hist \o PlanC(h.t, out, m, c)
 
 Init ==
   /\ max \in MaxDts /\ hasControl \in BOOLEAN
-  /\ \E t0 \in Times : held = [t |-> t0, hist |-> <<>>] /\ ghost = held
-  /\ nr = 0 /\ log = <<>> /\ last = <<>> /\ done = FALSE
+  /\ t0 \in Times /\ held = [t |-> t0, hist |-> <<>>] /\ ghost = held
+  /\ nr = 0 /\ pend = <<>> /\ log = <<>> /\ last = <<>> /\ done = FALSE
 
-ReadingSeqs(n) == UNION {[1..k -> Times \X Keys] : k \in 0..n}
+\* the caller appends one stamped reading to the list it will pass to the next tick
+AddReading(t, key) ==
+  /\ ~done /\ Len(log) < MaxTicks /\ Len(pend) < MaxReadings
+  /\ pend' = Append(pend, <<t, key>>)
+  /\ UNCHANGED <<max, t0, hasControl, held, ghost, nr, log, last, done>>
 
 \* attach unique ids to the readings of this tick
 WithIds(raw) == [i \in DOMAIN raw |-> [t |-> raw[i][1], key |-> raw[i][2], id |-> nr + i]]
 
 \* a model with control inputs cannot be ticked without them
-TickRefused(out, raw) ==
+TickRefused(out) ==
   /\ ~done /\ Len(log) < MaxTicks /\ hasControl
-  /\ log' = Append(log, [out |-> out, ctl |-> FALSE, rs |-> WithIds(raw), refused |-> TRUE,
+  /\ log' = Append(log, [out |-> out, ctl |-> FALSE, rs |-> WithIds(pend), refused |-> TRUE,
                          ret |-> <<>>, held_t |-> held.t, held_hist |-> held.hist])
-  /\ last' = [kind |-> "refused", nrs |-> Len(raw)]
-  /\ UNCHANGED <<max, hasControl, held, ghost, nr, done>>
+  /\ last' = [kind |-> "refused", nrs |-> Len(pend)]
+  /\ pend' = <<>>
+  /\ UNCHANGED <<max, t0, hasControl, held, ghost, nr, done>>
 
-Tick(out, ctl, raw) ==
+Tick(out, ctl) ==
   /\ ~done /\ Len(log) < MaxTicks
   /\ (hasControl => ctl)
-  /\ LET rs == WithIds(raw)
-         h2 == Fold(held, rs, max) IN
+  /\ LET raw == pend
+         rs == WithIds(raw)
+         c  == IF ctl THEN Len(log) + 1 ELSE 0
+         h2 == Fold(held, rs, max, c) IN
      /\ held' = h2
-     /\ ghost' = IF raw = <<>> THEN ghost ELSE Fold(ghost, rs, max)
+     /\ ghost' = IF raw = <<>> THEN ghost ELSE Fold(ghost, rs, max, c)
      /\ nr' = nr + Len(raw)
      /\ log' = Append(log, [out |-> out, ctl |-> ctl, rs |-> rs, refused |-> FALSE,
-                            ret |-> Report(h2, out, max), held_t |-> h2.t, held_hist |-> h2.hist])
-     /\ last' = [kind |-> "tick", nrs |-> Len(raw), out |-> out, ret |-> Report(h2, out, max), before |-> held]
-  /\ UNCHANGED <<max, hasControl, done>>
+                            ret |-> Report(h2, out, max, c), held_t |-> h2.t, held_hist |-> h2.hist])
+     /\ last' = [kind |-> "tick", nrs |-> Len(raw), out |-> out, c |-> c, ret |-> Report(h2, out, max, c), before |-> held]
+  /\ pend' = <<>>
+  /\ UNCHANGED <<max, t0, hasControl, done>>
 
 Emit ==
-  /\ ~done /\ Len(log) >= MinTicks /\ EmitOn
-  /\ PrintT(ToJson([max |-> max, hasControl |-> hasControl, ticks |-> log]))
+  /\ ~done /\ Len(log) >= MinTicks /\ EmitOn /\ pend = <<>>
+  /\ PrintT(ToJson([max |-> max, t0 |-> t0, hasControl |-> hasControl, ticks |-> log]))
   /\ done' = TRUE
-  /\ UNCHANGED <<max, hasControl, held, ghost, nr, log, last>>
+  /\ UNCHANGED <<max, t0, hasControl, held, ghost, nr, pend, log, last>>
 
 Next ==
-  \/ \E out \in Times : \E ctl \in BOOLEAN : \E raw \in ReadingSeqs(MaxReadings) : Tick(out, ctl, raw)
-  \/ \E out \in Times : \E raw \in ReadingSeqs(MaxReadings) : TickRefused(out, raw)
+  \/ \E t \in Times : \E key \in Keys : AddReading(t, key)
+  \/ \E out \in Times : \E ctl \in BOOLEAN : Tick(out, ctl)
+  \/ \E out \in Times : TickRefused(out)
   \/ Emit
 
 Spec == Init /\ [][Next]_vars
 
 \* fingerprint without the observation variables (exhaustive configs)
-View == <<max, hasControl, held, ghost, nr, Len(log), done>>
+View == <<max, t0, hasControl, held, ghost, nr, pend, Len(log), done>>
 
 (***************************************************************************)
 (* Theorems (C10 / C11)                                                    *)
@@ -137,7 +151,7 @@ InvGhost == held = ghost
 
 \* the report is the held estimate propagated to the output time and is NOT held
 InvReport == (last # <<>> /\ last.kind = "tick") =>
-                /\ last.ret = Report(held, last.out, max)
+                /\ last.ret = Report(held, last.out, max, last.c)
                 /\ (last.nrs = 0 => held = last.before)
 
 \* a refused tick changes nothing
